@@ -45,6 +45,8 @@ import GM.Props.Inlines
 import GM.Props.Blocks
 import GM.Props.Wf0
 import GM.Props.C05E2E
+import GM.Props.ConvertE2ENT
+import GM.Props.ConvertE2ENP
 
 namespace GM.Props.C05
 
@@ -363,5 +365,64 @@ theorem list_shape : type_of% @GM.Props.Wf0.list_shape := @GM.Props.Wf0.list_sha
     `ord`, `noLines`, `listShape`), for the final store of `run`, every source** — stated here without importing the
     end-to-end files; `OrdFrom` is `GM.Blocks.OrdFrom` (the recursion of `GM.E2E.ordFrom`). -/
 theorem store_hyps_core_run : type_of% @GM.Props.Wf0.store_hyps_core_run := @GM.Props.Wf0.store_hyps_core_run
+
+/-- (re-export of `GM.Props.ConvertE2ENT.parser_output_wellformed_without_transformers`) **`parser_output_wellformed_without_transformers`** — C05 END TO END, unconditional, for the parser without paragraph
+    transformers: for EVERY byte string and Unicode-class assignment the parse phases answer a tree, and its position dump
+    (the format of the harness' dumper) passes `Spec.wfAst` with `len(source)`: clause (a) sibling / parent links and
+    counts, no node twice; (b) the root is the Document, children of Lists are ListItems and ListItems only occur there,
+    inline nodes only below blocks that take them, Heading levels 1..6, Emphasis levels 1..2; (c) every segment inside the
+    source, a block's lines in order, inline segments in order inside their block's lines. -/
+theorem parser_output_wellformed_without_transformers : type_of% @GM.Props.ConvertE2ENT.parser_output_wellformed_without_transformers := @GM.Props.ConvertE2ENT.parser_output_wellformed_without_transformers
+
+/-- (re-export of `GM.Props.ConvertE2ENT.parser_output_wellformed_bracket_free`) **`parser_output_wellformed_bracket_free`** — C05 END TO END, unconditional, for the DEFAULT pipeline on every source
+    without `[`: whenever the parse phases answer a tree, its position dump passes `Spec.wfAst` — all four store hypotheses
+    are theorems, because the store is the store of the transformer-free block phase (`block_phase_bracket_free`) -/
+theorem parser_output_wellformed_bracket_free : type_of% @GM.Props.ConvertE2ENT.parser_output_wellformed_bracket_free := @GM.Props.ConvertE2ENT.parser_output_wellformed_bracket_free
+
+/-- (re-export of `GM.Props.ConvertE2ENT.parse_ast_exists_without_transformers`) `parse_ast_exists_without_transformers`: the parser without transformers always answers a tree (with segments) -/
+theorem parse_ast_exists_without_transformers : type_of% @GM.Props.ConvertE2ENT.parse_ast_exists_without_transformers := @GM.Props.ConvertE2ENT.parse_ast_exists_without_transformers
+
+/-- (re-export of `GM.Props.ConvertE2ENT.store_hyps_of_plain_driver`) `store_hyps_of_plain_driver`: ALL FOUR store hypotheses of `parser_output_wellformed_partial` are theorems for the
+    transformer-free block phase, every source — `lines` (`GM.Props.Blocks.lines_in_range`), `ord` (wf0 `all_lines_ordered`, the
+    raw kinds included), `noLines` (wf0 `container_nodes_no_lines`), `listShape` (the children of a List are ListItems:
+    `KidsOK` of the final store; a ListItem is only ever a child of a List: GM.Proof.E2EList). -/
+theorem store_hyps_of_plain_driver : type_of% @GM.Props.ConvertE2ENT.store_hyps_of_plain_driver := @GM.Props.ConvertE2ENT.store_hyps_of_plain_driver
+
+/-- (re-export of `GM.Props.ConvertE2ENT.block_phase_items_under_lists`) **`block_phase_items_under_lists`** — for EVERY source: in the store the block phase WITH the link-reference transformer
+    returns (guarded or not), a ListItem is only ever a child of a List, and every child index is a node of the store.
+    (An invariant that is NOT blind to child lists: the two edge-adding writes of ast.go — `AppendChild`, `InsertBefore` —
+    are obligations; the four places that add an edge know that the new child is a fresh node of another kind, or that
+    `listItemParser.Open` has just checked `parent.(*ast.List)`.) -/
+theorem block_phase_items_under_lists : type_of% @GM.Props.ConvertE2ENT.block_phase_items_under_lists := @GM.Props.ConvertE2ENT.block_phase_items_under_lists
+
+/-- (re-export of `GM.Props.ConvertE2ENT.list_shape_of_kids_ok`) `list_shape_of_kids_ok`: with `KidsOK` (tnopanic `block_phase_total`) the store hypothesis `listShape` of the default
+    pipeline is a theorem -/
+theorem list_shape_of_kids_ok : type_of% @GM.Props.ConvertE2ENT.list_shape_of_kids_ok := @GM.Props.ConvertE2ENT.list_shape_of_kids_ok
+
+/-- (re-export of `GM.Props.ConvertE2ENT.parser_output_wellformed_of_block_phase_facts`) `parser_output_wellformed_of_block_phase_facts` — C05 END TO END for the default pipeline from facts about its block
+    phase in the shapes the block-phase packages state them: `NodesOK` and `KidsOK` (tnopanic `block_phase_total`), the
+    order of the lines of every block (tnopanic `block_phase_lines_wellformed` has the non-raw kinds) and "Document / List
+    have no lines" — wf0 has the last two for `run` (`all_lines_ordered`, `container_nodes_no_lines`), NOT yet for the
+    driver with the transformer. The other half of the list shape is `block_phase_items_under_lists`. -/
+theorem parser_output_wellformed_of_block_phase_facts : type_of% @GM.Props.ConvertE2ENT.parser_output_wellformed_of_block_phase_facts := @GM.Props.ConvertE2ENT.parser_output_wellformed_of_block_phase_facts
+
+/-- (re-export of `GM.Props.ConvertE2ENT.parser_output_wellformed_of_store`) `parser_output_wellformed_of_store`: `parser_output_wellformed_partial` for ANY list of paragraph transformers that
+    keep the three frame invariants (`PTsGood`; the empty list and the default list do) -/
+theorem parser_output_wellformed_of_store : type_of% @GM.Props.ConvertE2ENT.parser_output_wellformed_of_store := @GM.Props.ConvertE2ENT.parser_output_wellformed_of_store
+
+/-- (re-export of `GM.Props.ConvertE2ENP.parser_output_wellformed_partial_raw`) **C05 END TO END for the default pipeline**, given ONE fact nobody has yet for the driver with the transformer: the order
+    of the lines of CodeBlock / FencedCodeBlock / HTMLBlock (wf0 has it for `run`; unconditional on sources without `[`:
+    `GM.Props.ConvertE2ENT.parser_output_wellformed_bracket_free`) -/
+theorem parser_output_wellformed_partial_raw : type_of% @GM.Props.ConvertE2ENP.parser_output_wellformed_partial_raw := @GM.Props.ConvertE2ENP.parser_output_wellformed_partial_raw
+
+/-- (re-export of `GM.Props.ConvertE2ENP.parser_output_wellformed`) **C05 END TO END for the default pipeline, every source, no hypothesis**: whenever the parse phases answer a tree (they always
+    do: `parse_ast_total`), its position dump passes `Spec.wfAst` with `len(source)` -/
+theorem parser_output_wellformed : type_of% @GM.Props.ConvertE2ENP.parser_output_wellformed := @GM.Props.ConvertE2ENP.parser_output_wellformed
+
+/-- (re-export of `GM.Props.ConvertE2ENP.parse_ast_total`) the parse phases of the default pipeline always answer a tree with its segments -/
+theorem parse_ast_total : type_of% @GM.Props.ConvertE2ENP.parse_ast_total := @GM.Props.ConvertE2ENP.parse_ast_total
+
+/-- (re-export of `GM.Props.ConvertE2ENP.parser_output_wellformed_total`) … so: for every source there is a tree and its dump is well formed -/
+theorem parser_output_wellformed_total : type_of% @GM.Props.ConvertE2ENP.parser_output_wellformed_total := @GM.Props.ConvertE2ENP.parser_output_wellformed_total
 
 end GM.Props.C05
